@@ -26,6 +26,10 @@ CLAIMED = {
             "DESIGN.md §4 C12"),
     "C14": ("model_checking", "flags paused x closed x unregistered (7 non-trivial combinations) x 6 engine operations on a staged state with a liquidatable position and due funding, operation amounts symbolic, twin live deployment for 'pause does not block liquidation/funding'; registry histories of AddVamm/RemoveVamm over 4 addresses (all of length<=3, sampled length 5; thorough: all of length<=5) checked for duplicates/size/membership agreement; shutdown from every subset of already-closed vAMMs",
             "DESIGN.md §4 C14"),
+    "C15": ("model_checking", "fluctuation limit, trade sizes and position size symbolic; band computed by the harness from the previous block's final price; successful opens (fresh / after in-block drift / reducing-reversing) proved to leave the spot price inside the band and to be rejected when it is already outside; ClosePosition with a 25% fraction: whole close only if the price after the whole close (vAMM quote) is inside, partial closes exactly the configured fraction; block patterns enumerated",
+            "DESIGN.md §4 C15"),
+    "C16": ("model_checking", "all event sequences of length 3 (sampled length 4; thorough: all) over {trades by bob / liquidator / bystander / alice, closes, liquidation of alice, next block} on a staged liquidatable position (full and partial liquidation): an Open/Close by a trader whose Position.block_number is the current block after a liquidation in that block is rejected with storage and balances unchanged, nobody else is rejected for that reason; dedicated orderings with symbolic amounts",
+            "DESIGN.md §4 C16"),
     "C17": ("model_checking", "vAMM alone from ALL reserve pairs with symbolic amount and limit: InputAmount/OutputAmount query before == reserve deltas, net-position delta and event attributes after; limit semantics with the limit on both sides of the executed amount; through the engine the limit inside the delivered vAMM sub-message is proved equal to the caller's on fresh/increase/reduce/whole close",
             "DESIGN.md §4 C17"),
     "C20": ("model_checking", "engine UpdateConfig with each optional ratio absent|symbolic over the full range (all 15 masks, sequences of 2-3, symbolic instantiate ratios), vAMM instantiate/UpdateConfig likewise with the twap interval from the boundary set; after every call z3 proves all stored ratios <= 1 and maintenance <= initial; AddVamm x decimals enumerated; caps: symbolic open-interest and holding caps, whitelist enumerated, caps changed between trades, margins symbolic",
